@@ -138,6 +138,13 @@ def d15():  # C02 / C10: quote inside braces inside a quoted value
     return len(lib.entries) == 1 and [(f.key, f.value) for f in lib.entries[0].fields] == [("note", '"a {"} b"'), ("x", "1")]
 
 
+def d16():  # C13 case of braced words (BibTeX von_token_found)
+    from bibtexparser.middlewares.names import parse_single_name_into_parts as pn
+    von = lambda n: pn(n).von
+    return (von(r"Jean {x\b} Fontaine") == [] and von(r"Jean {x{\'e}} Fontaine") == [] and von(r"Jean {\\}b Fontaine") == []
+            and von(r"Jean {\ b} Fontaine") == [r"{\ b}"] and von(r"Jean {\'e}x Fontaine") == [r"{\'e}x"])
+
+
 if __name__ == "__main__":
     bad = 0
     for name, f in sorted(((k, v) for k, v in globals().items() if k[0] == "d" and k[1:].isdigit()), key=lambda kv: int(kv[0][1:])):
